@@ -11,6 +11,7 @@ pub mod oracle3;
 pub mod oracle4;
 pub mod oracle5;
 pub mod oracle6;
+pub mod oracle7;
 pub mod plan;
 pub mod providers;
 pub mod run;
